@@ -467,6 +467,13 @@ class Calls:
                         for s3, kwv in self.ev_kwargs(n, s2):
                             out += self.call_function(callm[0], callm[1], [fobj] + vals, kwv, s3, line, f"{fc}.__call__")
                         continue
+                    if found is None and m in self.reg.opaque_methods.get(cname, {}):
+                        rty = self.ty(self.reg.opaque_methods[cname][m])
+                        rv = SV(fresh("acc_" + m, V), rty)
+                        if rty.k != "any":
+                            s2.pc = s2.pc + (self.has_type(rv.term, rty, s2),)
+                        out.append((s2, rv))
+                        continue
                     if found is None:
                         raise Unsupported(f"method {cname}.{m} not found")
                     if ot.k == "sub":
